@@ -89,6 +89,16 @@ class Check:
             return 2
         return 0
 
+def guard(chk, label, fn, *a, **kw):
+    """run one E-MIR part; an unsupported construct makes THIS part inconclusive, the rest of the check still runs"""
+    from .mirsym.interp import Unsupported
+    try: return fn(*a, **kw)
+    except Unsupported as e:
+        chk.obligation(f'{label} [unsupported: {str(e)[:160]}]', 'E-MIR', 'inconclusive')
+        print(f'  {label}: unsupported construct in the MIR of the working tree: {str(e)[:200]}', flush=True)
+    except Inconclusive as e:
+        chk.obligation(f'{label} [{str(e)[:160]}]', 'E-MIR', 'inconclusive')
+
 def _sub_run(args):
     modname, fname, pid, tier, seed, level, arg = args
     import importlib
